@@ -50,7 +50,7 @@ struct rthr {
 	int64_t		last_clock, wait_tmo, clock_at_wait;
 	int		have_clock;
 	long		clockreads, clockreads_at_return;
-	int		api_try, spin, last_ret_failed;
+	int		api_try, spin, last_ret_failed, idle_polls;
 	int		cur_kind, cur_obj, last_kind;
 	long		last_cb_wait;
 	uint64_t	timer_round_seq;
@@ -98,6 +98,7 @@ struct cookie *new_cookie(int id);
 void generic_cb(void *ck, int kind, int band, int64_t x1, int64_t x2);
 int exec_op(struct rthr *th, const struct pop *op);
 int op_unreg(struct rthr *th, int id, int keep);
+int op_post(struct rthr *th, int id, int limited);
 long chan_write(int chan, int end, long n);
 long chan_read(int chan, int end, long n);
 
